@@ -1,4 +1,5 @@
 import Dbus.Proofs.Bus.Services
+import Dbus.Proofs.Bus.GenericA
 /-
   C04 — name ownership follows the specification's state machine.
 
@@ -63,6 +64,17 @@ theorem queues_well_formed (tbl : List IfaceRow) (l : Limits) (p : Policy) (evs 
     (b.services.map (·.name)).Nodup ∧ ∀ s ∈ b.services, s.owners ≠ [] ∧ QInv s.owners := by
   intro b
   have := servicesInv_run tbl l p evs
+  exact ⟨this.names_nodup, this.queues⟩
+
+/-- … and the same with service activation (names taken by started services, held messages going out,
+    failed starts) and with time (`runT`) -/
+theorem queues_well_formed_with_activation_and_time (tbl : List IfaceRow) (l : Limits) (p : Policy) (t0 : TBus)
+    (h0 : t0.a.core = { limits := l, policy := p }) (evs : List TEv) :
+    let b := (runT tbl t0 evs).1.a.core
+    (b.services.map (·.name)).Nodup ∧ ∀ s ∈ b.services, s.owners ≠ [] ∧ QInv s.owners := by
+  intro b
+  have : ServicesInv b := invariant_of_leaves_T services_leaves tbl evs t0 (by
+    rw [h0]; exact ⟨List.nodup_nil, by intro s hs; cases hs⟩)
   exact ⟨this.names_nodup, this.queues⟩
 
 /-- so the hypothesis of the queue theorems holds for the queue the bus looks up, for every name -/
